@@ -7,6 +7,7 @@
    InsertNodeBefore/After with a mark in the list, SList.Push*Node / InsertNodeAt) of a node that is still in a list. *)
 From Coq Require Import List ZArith Bool.
 From V Require Import Lib.Enc Model.DList Model.SList Run.C13 Proofs.DListRel Proofs.DListRun Proofs.SListInv Proofs.SListRun Proofs.C13Entry.
+From V Require Import Lib.GoSem Lib.GoSemHeap Gen.SListCode Proofs.SListCode.
 Import ListNotations.
 
 (* ---------------------------------------------------------------- DList *)
@@ -56,3 +57,50 @@ Theorem c13_entry_slist_model_eq_spec : forall z0 z1 toks,
   entry 1 (1 :: z0 :: z1 :: toks)%Z = [BADCASE] \/ entry 0 (1 :: z0 :: z1 :: toks)%Z = entry 1 (1 :: z0 :: z1 :: toks)%Z.
 Proof. exact entry_slist_model_eq_spec. Qed.
 Print Assumptions c13_entry_slist_model_eq_spec.
+
+(* ---------------------------------------------------------------- the model of SList is what the code says *)
+(* Gen/SListCode.v is produced on every run from listz/singly_list.go by the pointer extension of the Go -> Gallina
+   translator (gen/trans_ext13.go, gen/TRANSLATOR.md "Extension [ext13]"): SNode lives in a heap (Record Heap: one store
+   per field + the allocation counter; a *SNode is an id, nil = None, a nil dereference = Panic), SList is the receiver
+   Record, every function is state-passing over (Heap, SList), statement by statement, loops on explicit fuel.
+   to_model h l: the model state with nx / sv / fr = the heap's stores and counter and hd / tl / ln = the header's fields
+   (heap_of / list_of: the way back); st_res / st_unit: the state goes back through them.
+   Every generated function equals the function of Model/SList.v the property theorems above are about, for ALL heaps,
+   headers and arguments (well-formed lists or not).  Fuel premises, explicit: the index walks of Get / Remove /
+   InsertNodeAt / InsertAt need more fuel than steps; Swap is stated for the fuel of the model's own search loop
+   (S (S fr)) + 1, whenever that search does not run out (it does not on the domain: c13_slist_refines_seq).
+   Node arguments: PushFrontNode(nil) panics; for a non-nil node the model's function. *)
+Theorem c13_slist_code_is_model :
+  (forall h e, g_SNode_Next h e = mmap (fun v => (h, v)) (h_get (SNode_next h) e)) /\
+  (forall h l, g_SList_Len h l = Ret (h, (l, ln (to_model h l)))) /\
+  (forall h l, g_SList_Front h l = Ret (h, (l, hd (to_model h l)))) /\
+  (forall h l, g_SList_Back h l = Ret (h, (l, tl (to_model h l)))) /\
+  (forall h l i, g_SList_withinRange h l i = Ret (h, (l, within (to_model h l) i))) /\
+  (forall fuel h l i, (Z.to_nat i < fuel)%nat ->
+     g_SList_Get fuel h l i = mmap (fun e => (h, (l, e))) (lift (get (to_model h l) i))) /\
+  (forall fuel h l i, (Z.to_nat i < fuel)%nat ->
+     g_SList_Remove fuel h l i = mmap st_res (lift (remove_at (to_model h l) i))) /\
+  (forall h l, g_SList_RemoveFront h l = mmap st_res (lift (remove_front (to_model h l)))) /\
+  (forall h l e, g_SList_PushFrontNode h l (Some e) = Ret (st_unit (push_front_node (to_model h l) e))) /\
+  (forall h l, g_SList_PushFrontNode h l None = Panic) /\
+  (forall h l e, g_SList_PushBackNode h l (Some e) = mmap st_unit (lift (push_back_node (to_model h l) e))) /\
+  (forall fuel h l i e, (Z.to_nat (i - 1) < fuel)%nat ->
+     g_SList_InsertNodeAt fuel h l i (Some e) = mmap st_unit (lift (insert_node_at (to_model h l) i e))) /\
+  (forall h l v, g_SList_PushFront h l v =
+     Ret (st_unit (let (s1, e) := salloc1 (to_model h l) v in push_front_node s1 e))) /\
+  (forall h l v, g_SList_PushBack h l v =
+     mmap st_unit (lift (let (s1, e) := salloc1 (to_model h l) v in push_back_node s1 e))) /\
+  (forall fuel h l i v, (Z.to_nat (i - 1) < fuel)%nat ->
+     g_SList_InsertAt fuel h l i v =
+     mmap st_unit (lift (let (s1, e) := salloc1 (to_model h l) v in insert_node_at s1 i e))) /\
+  (forall h l i j, swap (to_model h l) i j <> SNoFuel ->
+     g_SList_Swap (S (S (S (h_fresh h)))) h l i j = sres_m (swap (to_model h l) i j)) /\
+  (forall h l, heap_of (to_model h l) = h /\ list_of (to_model h l) = l) /\
+  (forall s, to_model (heap_of s) (list_of s) = s).
+Proof.
+  exact (conj code_Next (conj code_Len (conj code_Front (conj code_Back (conj code_withinRange (conj code_Get
+        (conj code_Remove (conj code_RemoveFront (conj code_PushFrontNode (conj code_PushFrontNode_nil
+        (conj code_PushBackNode (conj code_InsertNodeAt (conj code_PushFront (conj code_PushBack (conj code_InsertAt
+        (conj code_Swap_model (conj of_to to_of))))))))))))))))).
+Qed.
+Print Assumptions c13_slist_code_is_model.
